@@ -1,0 +1,39 @@
+//go:build verif
+
+// Contracts for package commonspace, checked by /verif (govc). Comment-only.
+package commonspace
+
+// ---------------------------------------------------------------------------------------------
+// C11: the response of a peer to SpacePull is attacker-controlled; only the service's own wiring
+// is constrained.
+//@ func (*spaceService).spacePullWithPeer
+//@   requires s != nil && p != nil && s.storageProvider != nil && s.configurationService != nil && s.account != nil
+//@   assumes true
+//@   loop 0:
+//@     invariant res != nil && -1 <= rangeindex && rangeindex < len(res.AclRecords) && rootof(consRecs) > 0 && acl != nil
+//@     invariant forall k int :: 0 <= k && k < len(res.AclRecords) ==> res.AclRecords[k] != nil
+//@ func iface spacestorage.SpaceStorageProvider.CreateSpaceStorage
+//@   modifies nothing
+//@   ensures result1 == nil ==> result0 != nil
+//@ func iface spacestorage.SpaceStorage.AclStorage
+//@   modifies nothing
+//@   ensures result1 == nil ==> result0 != nil
+//@ func iface nodeconf.Service.Configuration
+//@   modifies nothing
+//@ func iface accountservice.Service.Account
+//@   modifies nothing
+//@ func github.com/anyproto/any-sync/commonspace/object/acl/list.BuildAclListWithIdentity
+//@   modifies nothing
+//@   ensures result1 == nil ==> result0 != nil
+//@ func github.com/anyproto/any-sync/commonspace/object/acl/recordverifier.New
+//@   modifies nothing
+//@   ensures result != nil
+//@ func github.com/anyproto/any-sync/util/crypto.DecodeNetworkId
+//@   modifies nothing
+//@ func github.com/anyproto/any-sync/commonspace/spacepayloads.ValidateSpaceStorageCreatePayload
+//@   modifies nothing
+//@ func iface list.AclList.AddRawRecords
+//@   modifies nothing
+//@ package github.com/anyproto/any-sync/net/rpc/rpcerr
+//@ func *
+//@   modifies nothing
